@@ -100,6 +100,41 @@ def listing_worker(job):
             part.count('lists', 'exact')
             part.nontrivial.add(nt_hash(arg))
             part.sample(dict(list=arg[:100], resulting=[n for n in wnames][:30]), limit=1)
+        # the option given twice: every entry of both lists counts (in order), or the command line is refused - an earlier list
+        # is never silently dropped, valid or not
+        for _ in range(4 if idx else 12):
+            part.evaluations += 1
+            k = rng.choice([2, 3, 4, 6])
+            mods = [rng.choice('+-') + rng.choice(FLAG_NAMES) for _ in range(k)]
+            cut = rng.randrange(1, k)
+            first, second = ','.join(mods[:cut]), ','.join(mods[cut:])
+            bad_first = rng.random() < 0.3
+            if bad_first:
+                first = rng.choice(['+BOGUS', ',,x', 'P2SH', '+p2sh'])
+            forms = [rng.choice(['-f' + first, '--modify-flags=' + first]), rng.choice(['-f' + second, '--modify-flags=' + second])]
+            r, segs = proc.repl_session(btcdeb, forms + ['-v', 'OP_1'], [], wd, timeout=30)
+            wit = dict(first=first, second=second)
+            if r.abnormal:
+                part.violation('listing:' + r.crash_key('btcdeb'), dict(wit, run=r.brief()))
+                continue
+            if r.rc != 0 or not segs:
+                if r.stderr.strip():
+                    part.count('lists', 'option-given-twice:refused')
+                    part.nontrivial.add(nt_hash('twice', first, second))
+                else:
+                    part.violation('malformed-list-no-diagnostic', dict(wit, run=r.brief()))
+                continue
+            if bad_first:
+                part.violation('malformed-list-accepted', dict(wit, note='the first of two --modify-flags options'))
+                continue
+            got = segs[0]['dump']['flags']
+            if got != apply_list(mods):
+                wit['want'] = [nm for nm in FLAG_NAMES if apply_list(mods) & F[nm]]
+                wit['got'] = [nm for nm in FLAG_NAMES if got & F[nm]]
+                part.violation('flag-word-differs:option-given-twice', wit)
+                continue
+            part.count('lists', 'option-given-twice:combined')
+            part.nontrivial.add(nt_hash('twice', first, second))
         # malformed lists must be rejected
         bad = ['P2SH', '+', '-', '+BOGUS', '-bogus', '+p2sh', '+P2SH,', ',+P2SH', '+P2SH,,-LOW_S', '++P2SH', '+P2SH -LOW_S', '+P2SH;-LOW_S', '*P2SH', '+P2SH,LOW_S', ' +P2SH', '+P2SH ', '+NONE', '-ALL',
                '+' + 'A' * 126, '+' + 'A' * 127, '+' + 'A' * 128, '+' + 'B' * 300, '+' + 'C' * 5000, '+P2SH,' + '-' + 'D' * 200, '+WITNESS\x01']
